@@ -332,7 +332,7 @@ func cmdCheck(args []string) int {
 	} else {
 		os.MkdirAll(dir, 0o755)
 	}
-	timeoutS, all := 20, false
+	timeoutS, all := 30, false
 	if *tier == "thorough" {
 		timeoutS, all = 60, true
 	}
